@@ -5,10 +5,13 @@
    its class the requested one.  [chain]/[chain_ok]: from the question name, at every name that
    has no record of the requested type, follow the FIRST live CNAME header for that name and
    consume it.  from_msg IS this chase over headers that all belong to the answer section
-   (C06_from_msg_is_chase); that the reader hands out every answer record, in order, is the
-   reader's job (C02/C08/C09) and is tied by the rrset stream. *)
-From RsdnsModel Require Import Base Cursor Names Labels RData Reader RecordSet.
-From RsdnsModel.Proofs Require Import CursorSafe LabelsSound Chase FromMsg NameRefEq.
+   (C06_from_msg_is_chase); and on every message the linear pass parses completely the headers it
+   chases over are EXACTLY the records of the answer section, in wire order, each with its borrowed
+   owner name and its marker, starting from the question name (C06_from_msg_on_parsed_message). *)
+From RsdnsModel Require Import Base GenHeader Cursor Names Labels Header RData Reader RecordSet.
+From RsdnsModel.Spec Require Import LinearPass.
+From RsdnsModel.Proofs Require Import CursorSafe LabelsSound Chase FromMsg NameRefEq ParseSpec.
+From RsdnsModel.Proofs Require ReaderRefine FromMsgRefine.
 Open Scope N_scope.
 
 (* what is returned is exactly the live matching records at the end of the chain, in message
@@ -71,3 +74,24 @@ Proof.
   rewrite (nameref_eq_is_decoded_eq msg Heap c name t1 t2 c1' c2' H1 H2 HV E1 E2).
   destruct (name_eq t1 t2); reflexivity.
 Qed.
+
+(* from_msg over a message the linear pass parses completely ([parsed] with complete lists,
+   Properties/C09.v; one question; a response, not truncated): the answer headers are
+   [answer_headers] — for k = 0 .. an-1 the borrowed name at the offset of record k and the marker
+   [mk_of] of record k (offsets, TYPE, CLASS, TTL, RDLENGTH, section) — authority and additional
+   records never get in; the response code is the header nibble extended by the FIRST OPT record
+   behind the answer section ([the_opt]); the result is the chase from the question name (offset 12)
+   with the question's class, and the decoded final name. *)
+Theorem C06_from_msg_on_parsed_message : forall msg nq an ns ar qs rs e1 e2,
+  ReaderRefine.parsed msg nq an ns ar qs rs e1 e2 -> lenN qs = nq -> lenN rs = an + ns + ar ->
+  forall h, read_header msg (c_new msg) = (c_set_pos (c_new msg) 12, Ok h) ->
+  h_qd h = nq /\ h_an h = an /\ h_ns h = ns /\ h_ar h = ar ->
+  forall ty q, nq = 1 -> getN qs 0 = Some q -> flag_qr (h_flags h) = true -> flag_tc (h_flags h) = false ->
+  exists r4, whole msg (r_cur r4) /\
+    from_msg msg ty =
+    if negb (FromMsgRefine.the_rcode an ns ar rs h =? 0) then Err (BadResponseCode (FromMsgRefine.the_rcode an ns ar rs h)) else
+    let hs := FromMsgRefine.answer_headers msg nq an ns ar qs rs e2 in
+    let* (name, ttl, data) := chase msg (S (length hs)) ty r4 (c_with_pos msg 12) (a_class q) hs in
+    let* (t, _) := read_name msg Heap name in
+    Ok (mkRRset t (a_class q) ttl data).
+Proof. exact FromMsgRefine.from_msg_spec. Qed.
